@@ -1,4 +1,5 @@
 import SqlcModel.Query.Analyze
+import SqlcModel.Spec.PgSem
 import SqlcModel.Props.C02
 import SqlcModel.Props.C06
 import SqlcModel.Gen.Untranslatable
@@ -27,7 +28,7 @@ here are about each site GIVEN its scope, which is the part no sample can settle
 -/
 set_option linter.unusedSimpArgs false
 namespace Sqlc.C10
-open Sqlc Sqlc.Q
+open Sqlc Sqlc.Q Sqlc.Spec.Sem
 
 /-! ### relations -/
 
@@ -194,6 +195,210 @@ theorem C10_error_stops (f : ParamRef → Res (List Parameter)) (pre : List Para
 theorem witness_missing : (match resolveCompare [] 1 "nope" C06.wTm C06.wTables with | .ok _ => 0 | .error _ => 1) = 1 := by decide
 theorem witness_ref : (refMatches none C02.wTables "" "id").length = 2 ∧ (refMatches none C02.wTables "b" "id").length = 1 ∧
     (refMatches none C02.wTables "" "nope").length = 0 := by decide
+
+/-! ### one query level: the model's rule refines the database's rule -/
+
+/-- one query level as the database sees it, built from the model's tables in scope -/
+def colInfoOf (c : Column) : ColInfo := { name := c.name, dataType := c.dataType, notNull := c.notNull, isArray := c.isArray }
+def relOf (t : Table) : Rel := { qual := t.rel.name, cols := t.columns.map colInfoOf }
+def levelOf (tables : List Table) : Scope := tables.map relOf
+def qualOf (alias : String) : Option String := if alias = "" then none else some alias
+
+/-- the candidates PgSem.resolveCol looks at in one level -/
+def specHits (sc : Scope) (q : Option String) (c : String) : List ColInfo :=
+  let rels : List Rel := match q with
+    | some qn => sc.filter (fun (r : Rel) => r.qual == qn)
+    | none => sc
+  rels.flatMap (fun (r : Rel) => r.cols.filter (·.name == c))
+
+theorem resolveCol_single (sc : Scope) (q : Option String) (c : String) :
+    resolveCol [sc] q c = (match specHits sc q c with
+      | [h] => .ok h
+      | [] => .error (.columnMissing c)
+      | _ :: _ :: _ => .error (.columnAmbiguous c)) := by
+  unfold resolveCol specHits
+  cases q with
+  | none =>
+    simp only
+    generalize (List.flatMap (fun (r : Rel) => r.cols.filter (·.name == c)) sc) = hits
+    match hits with
+    | [] => simp [resolveCol]
+    | [h] => rfl
+    | _ :: _ :: _ => rfl
+  | some qn =>
+    simp only
+    generalize (List.flatMap (fun (r : Rel) => r.cols.filter (·.name == c)) (sc.filter (fun (r : Rel) => r.qual == qn))) = hits
+    match hits with
+    | [] => simp [resolveCol]
+    | [h] => rfl
+    | _ :: _ :: _ => rfl
+
+theorem hits_unqualified (rn : Option String) (tables : List Table) (name : String) :
+    (specHits (levelOf tables) none name).length = (refMatches rn tables "" name).length := by
+  unfold specHits levelOf refMatches
+  induction tables with
+  | nil => simp
+  | cons t ts ih =>
+    simp only [List.map_cons, List.flatMap_cons, List.length_append] at ih ⊢
+    rw [ih]
+    simp [relOf, colInfoOf, List.filter_map, Function.comp_def]
+
+theorem hits_qualified (rn : Option String) (tables : List Table) (alias name : String) (h : alias ≠ "") :
+    (specHits (levelOf tables) (some alias) name).length = (refMatches rn tables alias name).length := by
+  unfold specHits levelOf refMatches
+  induction tables with
+  | nil => simp
+  | cons t ts ih =>
+    simp only [List.map_cons, List.flatMap_cons, List.length_append, List.filter_cons] at ih ⊢
+    by_cases hq : t.rel.name = alias
+    · simp [relOf, colInfoOf, hq, h, List.filter_map, Function.comp_def] at ih ⊢
+      omega
+    · have hq' : ¬ alias = t.rel.name := fun e => hq e.symm
+      simp [relOf, colInfoOf, hq, hq', h, List.filter_map, Function.comp_def] at ih ⊢
+      omega
+
+theorem hits_length (rn : Option String) (tables : List Table) (alias name : String) :
+    (specHits (levelOf tables) (qualOf alias) name).length = (refMatches rn tables alias name).length := by
+  unfold qualOf
+  by_cases h : alias = ""
+  · rw [if_pos h, h]; exact hits_unqualified rn tables name
+  · rw [if_neg h]; exact hits_qualified rn tables alias name h
+
+/-- **C10, one level (refinement).** For a plain column reference and the relations of ONE query level, the
+model's verdict is a function of the database's verdict (`PgSem.resolveCol` on that level alone): resolvable
+⇒ accepted, missing ⇒ rejected as missing naming the column, ambiguous ⇒ rejected as ambiguous naming it.
+The three cases are exhaustive (`resolveCol_single`), so acceptance coincides. Everything sqlc gets wrong
+about names is therefore in WHICH relations it puts in `tables` (findings scopeLeak, subselectLeak,
+nestedLevel), never in how it matches a reference against them. -/
+theorem C10_flat_level_refines (res : Node) (tables : List Table) (node : Node) (alias name : String)
+    (hp : refParts node = some (alias, name)) :
+    (∀ h, resolveCol [levelOf tables] (qualOf alias) name = .ok h → ∃ cols, outputColumnRefs res tables node = .ok cols) ∧
+    (resolveCol [levelOf tables] (qualOf alias) name = .error (.columnMissing name) →
+        outputColumnRefs res tables node = .error s!"42703:notexist:{name}") ∧
+    (resolveCol [levelOf tables] (qualOf alias) name = .error (.columnAmbiguous name) →
+        outputColumnRefs res tables node = .error s!"42703:ambiguous:{name}") := by
+  have hl := hits_length ((res.get "Name").strOpt) tables alias name
+  rw [resolveCol_single]
+  refine ⟨?_, ?_, ?_⟩
+  · intro h hh
+    apply (C10_ref_iff res tables node alias name hp).mpr
+    split at hh <;> simp_all
+  · intro hh
+    apply C10_ref_missing res tables node alias name hp
+    split at hh <;> simp_all
+  · intro hh
+    apply C10_ref_ambiguous res tables node alias name hp
+    split at hh <;> simp_all
+    omega
+
+/-- and conversely: what the model accepts at one level, the database resolves at that level -/
+theorem C10_flat_level_complete (res : Node) (tables : List Table) (node : Node) (alias name : String)
+    (hp : refParts node = some (alias, name)) (cols : List Column)
+    (hok : outputColumnRefs res tables node = .ok cols) :
+    ∃ h, resolveCol [levelOf tables] (qualOf alias) name = .ok h := by
+  have h1 := (C10_ref_iff res tables node alias name hp).mp ⟨cols, hok⟩
+  have hl := hits_length ((res.get "Name").strOpt) tables alias name
+  rw [resolveCol_single]
+  rw [h1] at hl
+  match hs : specHits (levelOf tables) (qualOf alias) name, hl with
+  | [h], _ => exact ⟨h, rfl⟩
+
+theorem witness_flat : (match resolveCol [levelOf C02.wTables] (qualOf "b") "id" with | .ok _ => 1 | .error _ => 0) = 1 ∧
+    (match resolveCol [levelOf C02.wTables] (qualOf "") "id" with | .error (.columnAmbiguous _) => 1 | _ => 0) = 1 := by decide
+
+/-! ### one query level, parameter-paired columns -/
+
+def entryOf (tm : List TypeMapEntry) (t : TableName) : Option TypeMapEntry :=
+  (tm.filter (fun e => e.schema == t.schema && e.name == t.name)).getLast?
+
+/-- the relations a compared column is searched in, as one database level -/
+def compareLevel (tm : List TypeMapEntry) (search : List TableName) : Scope :=
+  search.map (fun t => ({ qual := t.name, cols := match entryOf tm t with
+    | none => []
+    | some e => e.cols.map (fun c => ({ name := c.name } : ColInfo)) } : Rel))
+
+theorem filter_nodup_length (l : List CatCol) (key : String) (h : (l.map (·.name)).Nodup) :
+    (l.filter (·.name == key)).length = if (l.find? (·.name == key)).isSome then 1 else 0 := by
+  induction l with
+  | nil => rfl
+  | cons c cs ih =>
+    simp only [List.map_cons, List.nodup_cons] at h
+    by_cases hc : c.name = key
+    · have hnone : cs.filter (·.name == key) = [] := by
+        apply List.filter_eq_nil_iff.mpr
+        intro x hx hxk
+        apply h.1
+        simp only [beq_iff_eq] at hxk
+        rw [hc, ← hxk]
+        exact List.mem_map.mpr ⟨x, hx, rfl⟩
+      simp [List.filter_cons, List.find?_cons, hc, hnone]
+    · simp [List.filter_cons, List.find?_cons, hc, ih h.2]
+
+theorem compare_hits (names : List (Nat × String)) (num : Nat) (key : String) (tm : List TypeMapEntry)
+    (hnd : ∀ e ∈ tm, (e.cols.map (·.name)).Nodup) (search : List TableName) :
+    (specHits (compareLevel tm search) none key).length = (compareMatches names num key tm search).length := by
+  unfold specHits compareLevel compareMatches
+  induction search with
+  | nil => rfl
+  | cons t ts ih =>
+    simp only [List.map_cons, List.flatMap_cons, List.length_append, List.filterMap_cons] at ih ⊢
+    rw [ih]
+    unfold typeMapLookup
+    unfold entryOf
+    cases he : (tm.filter (fun e => e.schema == t.schema && e.name == t.name)).getLast? with
+    | none => simp
+    | some e =>
+      have hmem : e ∈ tm := by
+        have := List.mem_of_getLast? he
+        exact (List.mem_filter.mp this).1
+      have hn := filter_nodup_length e.cols key (hnd e hmem)
+      simp only [List.filter_map, Function.comp_def, List.length_map]
+      rw [show (e.cols.filter (fun c => ({ name := c.name } : ColInfo).name == key)) = e.cols.filter (·.name == key) from rfl, hn]
+      cases hf : e.cols.find? (·.name == key) with
+      | none => simp
+      | some cc => simp; omega
+
+/-- **C10, one level, parameter-paired columns (refinement).** Given the relations `searchTables` selected and
+a catalog whose tables have pairwise distinct column names (the C08 invariant), the model's verdict on the
+column a placeholder is compared with is a function of the database's verdict on that level. -/
+theorem C10_compare_refines (names : List (Nat × String)) (num : Nat) (key : String) (tm : List TypeMapEntry)
+    (hnd : ∀ e ∈ tm, (e.cols.map (·.name)).Nodup) (search : List TableName) :
+    (∀ h, resolveCol [compareLevel tm search] none key = .ok h → ∃ ps, resolveCompare names num key tm search = .ok ps) ∧
+    (resolveCol [compareLevel tm search] none key = .error (.columnMissing key) →
+        resolveCompare names num key tm search = .error s!"42703:notexist:{key}") ∧
+    (resolveCol [compareLevel tm search] none key = .error (.columnAmbiguous key) →
+        resolveCompare names num key tm search = .error s!"42703:ambiguous:{key}") := by
+  have hl := compare_hits names num key tm hnd search
+  rw [resolveCol_single]
+  unfold resolveCompare
+  simp only
+  refine ⟨?_, ?_, ?_⟩
+  · intro h hh
+    have h1 : (compareMatches names num key tm search).length = 1 := by
+      split at hh
+      · next heq => rw [heq] at hl; simpa using hl.symm
+      · exact absurd hh (by simp)
+      · exact absurd hh (by simp)
+    refine ⟨compareMatches names num key tm search, ?_⟩
+    rw [if_neg (by simp [h1]), if_neg (by omega)]
+  · intro hh
+    have h0 : (compareMatches names num key tm search).length = 0 := by
+      split at hh
+      · exact absurd hh (by simp)
+      · next heq => rw [heq] at hl; simpa using hl.symm
+      · exact absurd hh (by simp)
+    rw [if_pos (by simp [h0])]
+  · intro hh
+    have h2 : (compareMatches names num key tm search).length > 1 := by
+      split at hh
+      · exact absurd hh (by simp)
+      · exact absurd hh (by simp)
+      · next heq => rw [heq] at hl; simp at hl; omega
+    have hne : ¬ ((compareMatches names num key tm search).length == 0) = true := by
+      simp only [beq_iff_eq]; omega
+    rw [if_neg hne, if_pos h2]
+/-- the hypothesis is met by the witness catalog -/
+example : ∀ e ∈ C06.wTm, (e.cols.map (·.name)).Nodup := by decide
 
 theorem translator_complete : Gen.untranslatable = [] := by decide
 
